@@ -362,7 +362,7 @@ Definition run (hdr : option (list str)) (A B : list rec) : outcome :=
   | None =>
       let jm := match q_join q with
                 | None => inl None
-                | Some js => match build (j_rhs js) B with inl m => inl (Some m) | inr nr => inr nr end
+                | Some js => match build (j_rhs js) B with inl m => inl (Some (widen (j_bhdr js) m)) | inr nr => inr nr end
                 end in
       match jm with
       | inr bnr => {| o_chain := chain_init; o_pulls := 0; o_error := Some (CRuntime, bnr, XRuntime 5) |}
